@@ -210,6 +210,7 @@ def rules(ctx):
         Rule("R07.l", "a nested comparison gets the address of an aggregate component, the loaded value of a scalar one (shared with C07)", 10, _reuse("c07", "r07l")),
         Rule("R07.k", "array -> slice is accepted only when the element representation is kept (shared with C07)", 1, _reuse("c07", "r07k")),
         Rule("R07.i", "== / != on aggregates: every component the comparison recurses into has a code-generator arm (shared with C07)", 60, _reuse("c07", "r07i")),
+        Rule("R19.b", "an aggregate passed by value arrives whole: every eightbyte that holds a member or a tag is classified, at its offset in the whole argument (shared with C19)", 30, _reuse("c19", "r19b")),
         Rule("R18.a", "type ids: each kind's own discriminant and row index (core.println prints through `any` and these tables; shared with C18)", 60, _reuse("c18", "r18a")),
         Rule("R18.h", "the type id written into an `any` is the id of the value's declared type (shared with C18)", 2, _reuse("c18", "r18h")),
         Rule("R11.c", "switch dispatch wiring and tag uses (shared with C11)", 9, _reuse("c11", "r11c")),
